@@ -35,6 +35,7 @@ RULE = ('symmetric and nonsymmetric M-matrices / weakly diagonally dominant matr
         'local_air (degree 1, 2).  Non-trivial: at least one F point with a strong C connection.')
 RULE += (' '
          'Also one_point_interpolation kernel (outputs pre-filled with NaN) and its value oracle (by_val on/off); local AIR with QR and dense-GMRES local solves (with/without diagonal preconditioner), CSR and 2x2 BSR input.')
+THOROUGH_ROUNDS = 8
 TRUSTED = ['LAPACK local solves inside the AIR kernel', 'SciPy sparse elementwise product used to form C.multiply(A)']
 PARTIAL = ['modified classical interpolation row sums, published-formula equality and AIR: correspondence + oracle, no theorem']
 HEADER = ('From Coq Require Import ZArith List PrimFloat.\nImport ListNotations.\n'
